@@ -1036,6 +1036,12 @@ func (ex *Exec) applyContract(fr *Frame, st *State, fn *ssa.Function, ct *FuncCo
 	st.allocCtr = ex.bumpAlloc(st)
 	res := ex.freshVal("res."+fn.Name(), fn.Signature.Results())
 	ex.assumeResultFacts(fr, st, fn, res)
+	if ct.Function {
+		// "option function": every flat component of the result is the same function of the arguments
+		for j, l := range flatten(fn.Signature.Results()) {
+			ex.assume(st.pc, eq(res.L[j], ex.fnTerm(key, j, l.Sort, args)))
+		}
+	}
 	nres := fn.Signature.Results().Len()
 	pos0 := 0
 	for k := 0; k < nres; k++ {
@@ -2061,4 +2067,20 @@ func (ex *Exec) assumeIfaceEnsures(fr *Frame, st *State, ict *FuncContract, recv
 		}
 		ex.assume(st.pc, t)
 	}
+}
+
+// fnTerm is component j of the result of the "option function" function key applied to args.
+func (ex *Exec) fnTerm(key string, j int, sort string, args []Val) string {
+	var sorts, terms []string
+	for _, a := range args {
+		for i, l := range flatten(a.T) {
+			sorts = append(sorts, l.Sort)
+			terms = append(terms, a.L[i])
+		}
+	}
+	f := ex.declFun(fmt.Sprintf("fn|%s#%d", key, j), sorts, sort)
+	if len(terms) == 0 {
+		return f
+	}
+	return app(f, terms...)
 }
